@@ -228,6 +228,14 @@ type c06Case struct {
 	// that it cannot overtake a re-sent chunk (the recorded race is excluded:
 	// a repair that is still lost was dropped, not late)
 	HoldEnd bool `json:"hold_end,omitempty"`
+	// HoldChunks: the regular chunk frames of the damaged file are held until the
+	// sender's verification of the recorded chunk has started and 60 ms have
+	// passed (its verdict is in), and many chunks are still missing: a repair
+	// that is still lost was not late, it was queued behind the rest
+	HoldChunks bool `json:"hold_chunks,omitempty"`
+	// ResumeTimeoutMs: the sender's Options.ResumeTimeout (0 in the CLI, 10 s by
+	// default in internal/config)
+	ResumeTimeoutMs int `json:"resume_timeout_ms,omitempty"`
 	Streams int    `json:"streams"`
 	CS      uint32 `json:"cs"`
 	TSeed   uint64 `json:"tseed"`
@@ -246,6 +254,9 @@ func c06Key(c c06Case, o c06Out) string {
 			st += ":" + c.Marks
 		}
 		return "lastchunk-damage-not-detected:" + st
+	}
+	if c.Data == "lastchunk" && c.HoldChunks && o.resent {
+		return "lastchunk-repair-queued-behind-the-rest:partial:many-chunks-missing"
 	}
 	if c.Data == "lastchunk" && c.HoldEnd {
 		st := "partial"
@@ -342,6 +353,14 @@ func runC06(e *Env) {
 	for k := 0; k < e.Pick(6, 30); k++ {
 		held = append(held, c06Case{First: "complete", Sidecar: "kept", Data: "lastchunk", DmgOff: r.Intn(1000), HoldEnd: true, Streams: 1 + r.Intn(3)})
 	}
+	// the sender's resume timeout switched on (verification must still happen)
+	for k := 0; k < e.Pick(4, 16); k++ {
+		held = append(held, c06Case{First: "complete", Sidecar: "kept", Data: "lastchunk", DmgOff: r.Intn(1000), HoldEnd: true, Streams: 1 + r.Intn(3), ResumeTimeoutMs: []int{10000, 2000}[k%2]})
+	}
+	// many chunks still missing, regular frames held until the verdict is in
+	for k := 0; k < e.Pick(4, 16); k++ {
+		held = append(held, c06Case{First: "partial", Sidecar: "kept", Data: "lastchunk", DmgOff: r.Intn(1000), HoldChunks: true, Streams: 1, CS: 16})
+	}
 	for k := 0; k < e.Pick(4, 40); k++ {
 		held = append(held, c06Case{First: "partial", Sidecar: "kept", Data: "lastchunk", DmgOff: r.Intn(1000), Hold: true, Streams: 1 + r.Intn(2)})
 	}
@@ -359,7 +378,7 @@ func runC06(e *Env) {
 			e.R.Count("tamper_not_applicable")
 			return
 		}
-		e.R.Distinct(fmt.Sprintf("%s%s/%s/%s/src=%s/off%d/hold%v/cs%d/s%d", c.First, c.Marks, c.Sidecar, c.Data, c.Source, c.DmgOff%int(c.CS), c.Hold || c.HoldEnd, c.CS, c.Streams))
+		e.R.Distinct(fmt.Sprintf("%s%s/%s/%s/src=%s/off%d/hold%v/cs%d/s%d", c.First, c.Marks, c.Sidecar, c.Data, c.Source, c.DmgOff%int(c.CS), c.Hold || c.HoldEnd || c.HoldChunks, c.CS+uint32(c.ResumeTimeoutMs), c.Streams))
 		res := o.res
 		mu.Lock()
 		switch {
@@ -434,8 +453,12 @@ func runC06Case(e *Env, lp *vk.ListenerPool, c c06Case) c06Out {
 	base := vk.TempDir(e.Work, "c06-")
 	defer os.RemoveAll(base)
 	cs := int64(c.CS)
+	bigChunks := int64(9)
+	if c.HoldChunks {
+		bigChunks = 300
+	}
 	tree := vk.Tree{Seed: c.TSeed, Shape: "c06", Names: "plain", Entries: []vk.Entry{
-		{Rel: "big.bin", Size: cs*9 + cs/3}, {Rel: "mid.bin", Size: cs * 3}, {Rel: "tiny.bin", Size: 5}}}
+		{Rel: "big.bin", Size: cs*bigChunks + cs/3}, {Rel: "mid.bin", Size: cs * 3}, {Rel: "tiny.bin", Size: 5}}}
 	src := filepath.Join(base, "srcroot")
 	if err := tree.Materialize(src); err != nil {
 		out.setup = err.Error()
@@ -443,7 +466,7 @@ func runC06Case(e *Env, lp *vk.ListenerPool, c c06Case) c06Out {
 	}
 	outDir := filepath.Join(base, "out")
 	_ = os.MkdirAll(outDir, 0755)
-	cfg := vk.XferCfg{Transport: "quic", Conns: 1, Streams: c.Streams, ChunkSize: c.CS, Resume: true, NoRootDir: true, ScanPaths: true, WatchdogMs: 9000}
+	cfg := vk.XferCfg{Transport: "quic", Conns: 1, Streams: c.Streams, ChunkSize: c.CS, Resume: true, NoRootDir: true, ScanPaths: true, WatchdogMs: 9000, ResumeTimeoutMs: c.ResumeTimeoutMs}
 	// a file of the tree that is a symlink to a regular file outside it
 	linkTarget := filepath.Join(base, "target-of-link.bin")
 	linkSize := cs*6 + cs/2
@@ -519,6 +542,9 @@ func runC06Case(e *Env, lp *vk.ListenerPool, c c06Case) c06Out {
 			}
 		default:
 			prefix := uint32(1 + rr.Intn(int(full.TotalChunks)-1))
+			if c.HoldChunks {
+				prefix = uint32(2 + rr.Intn(8))
+			}
 			for i := uint32(0); i < prefix; i++ {
 				keep[i] = true
 			}
@@ -642,7 +668,7 @@ func runC06Case(e *Env, lp *vk.ListenerPool, c c06Case) c06Out {
 	changed := map[string][]byte{} // path inside the tree -> new content
 	switch c.Source {
 	case "rewritten":
-		nb := vk.NewRng(c.TSeed ^ 0x22).Bytes(int(cs*9 + cs/3))
+		nb := vk.NewRng(c.TSeed ^ 0x22).Bytes(int(cs*bigChunks + cs/3))
 		p := filepath.Join(src, "big.bin")
 		_ = os.WriteFile(p, nb, 0644)
 		later := time.Now().Add(10 * time.Second)
@@ -689,6 +715,29 @@ func runC06Case(e *Env, lp *vk.ListenerPool, c c06Case) c06Out {
 		})
 		defer verifhook.Set("send.chunk.afterFrame", nil)
 		defer verifhook.Set("send.verify.beforeHash", nil)
+	}
+	if c.HoldChunks {
+		verifyStarted := make(chan struct{})
+		var vonce sync.Once
+		verifhook.Set("send.verify.beforeHash", func(ev verifhook.Event) {
+			if ev.A == bigKey {
+				vonce.Do(func() { close(verifyStarted) })
+			}
+		})
+		var released atomic.Bool
+		verifhook.Set("send.chunk.beforeFrame", func(ev verifhook.Event) {
+			if ev.A != bigKey || released.Load() {
+				return
+			}
+			select {
+			case <-verifyStarted:
+				time.Sleep(60 * time.Millisecond)
+			case <-time.After(3 * time.Second):
+			}
+			released.Store(true)
+		})
+		defer verifhook.Set("send.verify.beforeHash", nil)
+		defer verifhook.Set("send.chunk.beforeFrame", nil)
 	}
 	if c.HoldEnd {
 		verifhook.Set("send.fileEnd.before", func(ev verifhook.Event) {
